@@ -21,13 +21,22 @@
 /* ---------------------------------------------------------------- memcpy (DESIGN 2.4) ---------- */
 #ifdef EL_MEMCPY
 /* g_mc_idx is a ghost byte index never assigned by code: "dst[g_mc_idx] == src[g_mc_idx]" for an
- * arbitrary index is the statement that every byte is copied.  The frame is the exact byte range. */
+ * arbitrary index is the statement that every byte is copied. */
 size_t g_mc_idx;
+#define MC_B(i) ((i) < n ==> ((unsigned char*)dst)[i] == ((const unsigned char*)src)[i])
 void *memcpy(void *dst, const void *src, size_t n)
 __CPROVER_requires(__CPROVER_r_ok(src, n) && __CPROVER_w_ok(dst, n))
-__CPROVER_assigns(__CPROVER_object_from(dst))
+__CPROVER_assigns(__CPROVER_object_from(dst))     /* sound over-approximation of the frame dst[0..n) */
 __CPROVER_ensures(__CPROVER_return_value == dst)
 __CPROVER_ensures(g_mc_idx < n ==> ((unsigned char*)dst)[g_mc_idx] == ((const unsigned char*)src)[g_mc_idx])
+#ifdef EL_MEMCPY_EXACT32
+/* additionally: the first min(n,32) bytes are copied exactly (needed where the code reads a short
+ * copied field back as a whole, e.g. the 32-byte surjection bitmap) */
+__CPROVER_ensures(MC_B(0) && MC_B(1) && MC_B(2) && MC_B(3) && MC_B(4) && MC_B(5) && MC_B(6) && MC_B(7))
+__CPROVER_ensures(MC_B(8) && MC_B(9) && MC_B(10) && MC_B(11) && MC_B(12) && MC_B(13) && MC_B(14) && MC_B(15))
+__CPROVER_ensures(MC_B(16) && MC_B(17) && MC_B(18) && MC_B(19) && MC_B(20) && MC_B(21) && MC_B(22) && MC_B(23))
+__CPROVER_ensures(MC_B(24) && MC_B(25) && MC_B(26) && MC_B(27) && MC_B(28) && MC_B(29) && MC_B(30) && MC_B(31))
+#endif
 ;
 #endif
 
@@ -39,10 +48,72 @@ static inline size_t el_popcount(const unsigned char *data, size_t count) {
     for (i = 0; i < 32; i++) if (i < count) for (b = 0; b < 8; b++) r += (data[i] >> b) & 1;
     return r;
 }
+/* optional call log (EL_LOG_COUNT_BITS): number of calls, count and result of the last call, and whether
+ * its data pointer was the one the harness expects (g_cb_expect is never assigned by code or contract;
+ * pointer-typed ghost variables in ensures clauses make DFCC paths infeasible, so a flag is logged) */
+#ifdef EL_LOG_COUNT_BITS
+int g_cb_n, g_cb_match; const unsigned char *g_cb_expect; size_t g_cb_count, g_cb_ret;
+#endif
 static size_t secp256k1_count_bits_set(const unsigned char *data, size_t count)
 __CPROVER_requires(count <= 32 && (count == 0 || __CPROVER_r_ok(data, count)))
+#ifdef EL_LOG_COUNT_BITS
+__CPROVER_assigns(g_cb_n, g_cb_match, g_cb_count, g_cb_ret)
+__CPROVER_ensures(g_cb_n == __CPROVER_old(g_cb_n) + 1 && g_cb_match == (data == g_cb_expect) && g_cb_count == count && g_cb_ret == __CPROVER_return_value)
+#else
 __CPROVER_assigns()
+#endif
 __CPROVER_ensures(__CPROVER_return_value == el_popcount(data, count))
+__CPROVER_ensures(__CPROVER_return_value <= 8 * count)
+;
+#endif
+
+/* Ghost indices shared by the ring contracts below; the harness fixes them, nothing else assigns them:
+ * g_el_i = a ring position, g_el_k = a byte position in a 32-byte message. */
+#if defined(EL_BORROMEAN_VERIFY) || defined(EL_BORROMEAN_SIGN) || defined(EL_WL_KEYS_MSG) || defined(EL_SJ_PUBKEYS) || defined(EL_SJ_GENRAND)
+size_t g_el_i, g_el_k;
+#endif
+
+/* --------------------------------- secp256k1_borromean_verify, single ring, evalues == NULL (ORACLE) */
+#ifdef EL_BORROMEAN_VERIFY
+/* The ring equation is the algebraic residue.  The contract demands what the real function needs from
+ * its caller (readable arrays of rsizes[0] entries, reduced scalars, group elements in representation
+ * range - checked at the ghost position g_el_i, i.e. for every position) and logs what it was given
+ * and what it answered.  Its own gates (s = 0, infinity, hash order) belong to C10.borromean_verify. */
+int g_bv_n, g_bv_ret, g_bv_e0_match, g_bv_evalues_null; size_t g_bv_nrings, g_bv_rsize0, g_bv_mlen;
+const unsigned char *g_bv_e0_expect;     /* set by the harness only */
+secp256k1_scalar g_bv_s_i; secp256k1_gej g_bv_pub_i; unsigned char g_bv_m_k;
+static int secp256k1_borromean_verify(const secp256k1_hash_ctx *hash_ctx, secp256k1_scalar *evalues, const unsigned char *e0, const secp256k1_scalar *s,
+ const secp256k1_gej *pubs, const size_t *rsizes, size_t nrings, const unsigned char *m, size_t mlen)
+__CPROVER_requires(hash_ctx != NULL && evalues == NULL && nrings == 1 && __CPROVER_r_ok(rsizes, sizeof(size_t)) && rsizes[0] <= 256)
+__CPROVER_requires(__CPROVER_r_ok(e0, 32) && __CPROVER_r_ok(m, mlen) && mlen == 32)
+__CPROVER_requires(__CPROVER_r_ok(s, rsizes[0] * sizeof(secp256k1_scalar)) && __CPROVER_r_ok(pubs, rsizes[0] * sizeof(secp256k1_gej)))
+__CPROVER_requires(g_el_i < rsizes[0] ==> (scalar_ok(&s[g_el_i]) && gej_ok(&pubs[g_el_i])))
+__CPROVER_assigns(g_bv_n, g_bv_ret, g_bv_e0_match, g_bv_evalues_null, g_bv_nrings, g_bv_rsize0, g_bv_mlen, g_bv_s_i, g_bv_pub_i, g_bv_m_k)
+__CPROVER_ensures(__CPROVER_return_value == 0 || __CPROVER_return_value == 1)
+__CPROVER_ensures(g_bv_n == __CPROVER_old(g_bv_n) + 1 && g_bv_ret == __CPROVER_return_value && g_bv_e0_match == (e0 == g_bv_e0_expect) &&
+                  g_bv_evalues_null == (evalues == NULL) && g_bv_nrings == nrings && g_bv_rsize0 == rsizes[0] && g_bv_mlen == mlen)
+__CPROVER_ensures(g_el_i < rsizes[0] ==> (SC_EQ(g_bv_s_i, s[g_el_i]) && GEJ_EQ(g_bv_pub_i, pubs[g_el_i])))
+__CPROVER_ensures(g_el_k < mlen ==> g_bv_m_k == m[g_el_k])
+;
+#endif
+
+/* ------------------- secp256k1_whitelist_compute_keys_and_message (PROVED frame/stream: C16.keys_msg) */
+#ifdef EL_WL_KEYS_MSG
+/* Ring keys are oracle values in representation range (their algebra is residue); the message is
+ * what unit C16.keys_msg proves about the hash stream.  The real function always returns 1; the
+ * contract lets it fail so that the caller's handling of a failure is an obligation. */
+int g_ck_n, g_ck_ret, g_ck_nkeys, g_ck_args_match;
+const secp256k1_pubkey *g_ck_online_expect, *g_ck_offline_expect, *g_ck_sub_expect;   /* harness only */
+secp256k1_gej g_ck_key_i; unsigned char g_ck_msg_k;
+static int secp256k1_whitelist_compute_keys_and_message(const secp256k1_context* ctx, unsigned char *msg32, secp256k1_gej *keys, const secp256k1_pubkey *online_pubkeys, const secp256k1_pubkey *offline_pubkeys, const int n_keys, const secp256k1_pubkey *sub_pubkey)
+__CPROVER_requires(ctx != NULL && n_keys >= 0 && n_keys <= 255 && __CPROVER_w_ok(msg32, 32) && __CPROVER_w_ok(keys, n_keys * sizeof(secp256k1_gej)))
+__CPROVER_requires(__CPROVER_r_ok(online_pubkeys, n_keys * sizeof(secp256k1_pubkey)) && __CPROVER_r_ok(offline_pubkeys, n_keys * sizeof(secp256k1_pubkey)) && __CPROVER_r_ok(sub_pubkey, sizeof(secp256k1_pubkey)))
+__CPROVER_assigns(__CPROVER_object_upto(msg32, 32), __CPROVER_object_whole(keys), g_ck_n, g_ck_ret, g_ck_nkeys, g_ck_args_match, g_ck_key_i, g_ck_msg_k)
+__CPROVER_ensures(__CPROVER_return_value == 0 || __CPROVER_return_value == 1)
+__CPROVER_ensures(g_ck_n == __CPROVER_old(g_ck_n) + 1 && g_ck_ret == __CPROVER_return_value && g_ck_nkeys == n_keys &&
+                  g_ck_args_match == (online_pubkeys == g_ck_online_expect && offline_pubkeys == g_ck_offline_expect && sub_pubkey == g_ck_sub_expect))
+__CPROVER_ensures(g_el_i < (size_t)n_keys ==> (gej_ok(&keys[g_el_i]) && GEJ_EQ(g_ck_key_i, keys[g_el_i])))
+__CPROVER_ensures(g_el_k < 32 ==> g_ck_msg_k == msg32[g_el_k])
 ;
 #endif
 
